@@ -1929,8 +1929,379 @@ def part_own(ctx, spec):
 
 
 # =====================================================================================================
-EXEC = {"rv": exec_rv, "ra": exec_ra, "mol": exec_mol, "dih": exec_dih, "ens": exec_ens, "aln": exec_aln, "hist": exec_hist, "histens": exec_histens, "arg": exec_arg, "own": exec_own}
-PARTS = {"rv_pairs": part_rv_pairs, "rv_anti": part_rv_anti, "ra": part_ra, "mol": part_mol, "dih": part_dih, "ens": part_ens, "aln": part_aln, "hist": part_hist, "histens": part_histens, "arg": part_arg, "own": part_own, "ens_shapes": part_ens_shapes}
+# mag : the MAGNITUDE of a direction argument must not matter (10^-150 .. 10^150)
+# =====================================================================================================
+MAG_EXP = (-14, -12, -10, -8, -6, -3, 0, 3, 6, 8, -150, 150)
+MAG_ANGLES = (PI / 6, 2.0, PI, -PI / 2, 1e-3)
+MTOL = 1e-12  # HEAD divides by the exact norm: a proper rotation to ~1e-15 whatever the length of the axis
+
+
+def exec_mag(ctx, case):
+    what_k = case["kind"]
+    ctx.count(evaluations=1, states=1, transitions=1, traces=1)
+    old = np.seterr(all="ignore")
+    ok = True
+    try:
+        if what_k == "axis":
+            axis = np.array(case["axis"], dtype=float)
+            ang = float(case["angle"])
+            cls = case["magcls"]
+            pre = f"rotation_matrix_from_axis[|axis|={cls}]"
+            R = np.asarray(rotation_matrix_from_axis(axis.copy(), ang), dtype=float)
+            a = N.unit(axis / np.max(np.abs(axis)))  # the direction, computed without squaring tiny numbers
+            if R.shape != (3, 3) or not np.all(np.isfinite(R)):
+                ctx.violation(f"{pre}:non-finite", f"axis {axis.tolist()}: result is not a finite 3x3 matrix", case)
+                ok = False
+            else:
+                eo = float(np.max(np.abs(R @ R.T - np.eye(3))))
+                ed = abs(float(np.linalg.det(R)) - 1.0)
+                ea = max(float(np.max(np.abs(R @ a - a))), float(np.max(np.abs(a @ R - a))))
+                et = abs(float(np.trace(R)) - (1.0 + 2.0 * math.cos(ang)))
+                _ratio("mag-axis", max(eo, ed, ea, et), MTOL)
+                if eo > MTOL or ed > MTOL:
+                    ctx.violation(f"{pre}:not-a-proper-rotation", f"axis of length {np.linalg.norm(axis):.3g}, angle {ang:.6g}: |R R^T - I| = {eo:.3g}, |det - 1| = {ed:.3g}", case)
+                    ok = False
+                elif ea > MTOL:
+                    ctx.violation(f"{pre}:axis-not-fixed", f"axis of length {np.linalg.norm(axis):.3g}: |R a - a| = {ea:.3g}", case)
+                    ok = False
+                elif et > MTOL:
+                    ctx.violation(f"{pre}:trace-not-1+2cos", f"axis of length {np.linalg.norm(axis):.3g}, angle {ang:.6g}: trace off by {et:.3g}", case)
+                    ok = False
+            ctx.outcome(("mag", "axis", cls, ok))
+        elif what_k == "vectors":
+            v1 = np.array(case["v1"], dtype=float)
+            v2 = np.array(case["v2"], dtype=float)
+            cls = case["magcls"]
+            pre = f"rotation_matrix_from_vectors[|v|={cls}]"
+            n1 = N.unit(v1 / np.max(np.abs(v1)))
+            n2 = N.unit(v2 / np.max(np.abs(v2)))
+            opc = float(np.dot(n1 + n2, n1 + n2) / 2.0)
+            tol = max(MTOL, 256 * EPS / max(opc, DOC_SWITCH))
+            with N.RandSeam(N.answer_sequence(N.RNG_MENU[0])):
+                R = np.asarray(rotation_matrix_from_vectors(v1.copy(), v2.copy()), dtype=float)
+            if R.shape != (3, 3) or not np.all(np.isfinite(R)):
+                ctx.violation(f"{pre}:non-finite", f"|v1| = {np.linalg.norm(v1):.3g}, |v2| = {np.linalg.norm(v2):.3g}: not a finite 3x3 matrix", case)
+                ok = False
+            else:
+                eo = float(np.max(np.abs(R @ R.T - np.eye(3))))
+                ed = abs(float(np.linalg.det(R)) - 1.0)
+                em = float(np.max(np.abs(n1 @ R - n2)))
+                _ratio("mag-vectors", max(eo, ed, em), tol)
+                if eo > tol or ed > tol:
+                    ctx.violation(f"{pre}:not-a-proper-rotation", f"|v1| = {np.linalg.norm(v1):.3g}, |v2| = {np.linalg.norm(v2):.3g}: |R R^T - I| = {eo:.3g}, |det - 1| = {ed:.3g}", case)
+                    ok = False
+                elif em > tol:
+                    ctx.violation(f"{pre}:v1-not-mapped-onto-v2", f"|v1| = {np.linalg.norm(v1):.3g}, |v2| = {np.linalg.norm(v2):.3g}: |v1n @ R - v2n| = {em:.3g}", case)
+                    ok = False
+            ctx.outcome(("mag", "vectors", cls, ok))
+        elif what_k == "transform-with-short-axis":
+            # the axis is the cross product of two nearly parallel directions taken from the molecule
+            m, base = _posed_mol(ctx, case["mol"])
+            topo = _topo("mol", case["mol"])
+            a, b = int(case["a"]), int(case["b"])
+            d = m.vector(a, b)
+            u1, _ = N.any_orthogonal(d)
+            d2 = d + 10.0 ** int(case["eps_exp"]) * np.linalg.norm(d) * u1
+            axis = np.cross(d, d2)
+            pre = "transform(rotation_matrix_from_axis(cross-product-of-nearly-parallel-directions))"
+            R = rotation_matrix_from_axis(axis, float(case["angle"]))
+            m.transform(R)
+            ctx.count(transitions=1)
+            ok = judge_edit(ctx, pre, case, base, np.asarray(m.coords), list(range(m.n_atoms)), None, topo.stereo_quads(), what=f"{pre} on {case['mol']}, |axis| = {np.linalg.norm(axis):.3g}")
+            ctx.outcome(("mag", "transform", int(case["eps_exp"]), ok))
+        elif what_k == "rotate_dihedral-scaled":
+            m, base = _posed_mol(ctx, case["mol"])
+            topo = _topo("mol", case["mol"])
+            sc = 10.0 ** int(case["exp"])
+            q = [int(x) for x in case["quad"]]
+            target = float(case["target"])
+            start = base * sc
+            m._coords = start.copy()
+            pre = "rotate_dihedral[scaled-molecule]"
+            what = f"rotate_dihedral({tuple(q)}, {target:.6g}) on {case['mol']} scaled by 1e{int(case['exp'])}"
+            d0 = N.dihedral(*(base[i] for i in q))
+            m.rotate_dihedral(tuple(q), target)
+            after = np.asarray(m.coords)
+            # judged in units of the scale: relative tolerances
+            ok = judge_edit(ctx, pre, case, start / sc, after / sc, topo.side(q[1], q[2]), None, topo.stereo_quads(), what=what, rigid_with=(q[1],))
+            if ok:
+                ok = _judge_dihedral(ctx, pre, case, m, q, d0, target, what)
+            ctx.outcome(("mag", "dihedral", int(case["exp"]), ok))
+        elif what_k == "align-scaled":
+            sc = 10.0 ** int(case["exp"])
+            kind = case["obj_kind"]
+            if kind == "ens":
+                obj, base = _posed_ens(ctx, case["obj"])
+                topo = _topo("ens", case["obj"])
+            else:
+                obj, b0 = _posed_mol(ctx, case["obj"])
+                base = b0[None]
+                topo = _topo("mol", case["obj"])
+            maps = [[int(x) for x in mm] for mm in case["maps"]]
+            nc = base.shape[0]
+            Mr, tr = N.pose_matrix(int(case["ref_pose"]))
+            refc = (base[0] @ Mr + tr) * sc
+            refmol = ml.Molecule(obj[0]) if kind == "ens" else ml.Molecule(obj)
+            refmol._coords = refc.copy()
+            refsub = refmol.substructure(list(maps[0]))
+            vec = np.mean(refc[maps[0]], axis=0)
+            refsub.translate(-vec)
+            Q = np.array(refsub.coords, dtype=float, copy=True)
+            Mp, tp = N.pose_matrix(int(case["pose"]))
+            start = (base @ Mp + tp) * sc
+            obj._coords = start.copy() if kind == "ens" else start[0].copy()
+            pre = f"align_to_ref_coords[{'ConformerEnsemble' if kind == 'ens' else 'Molecule'},scaled]"
+            what = f"{pre} on {case['obj']} scaled by 1e{int(case['exp'])}"
+            ret = obj.align_to_ref_coords(_harness_kabsch([]), [list(mm) for mm in maps], refsub, vec.copy())
+            after = np.asarray(obj.coords, dtype=float)
+            after = after if kind == "ens" else after[None]
+            retl = [float(x) for x in (ret if kind == "ens" else [ret])]
+            for k in range(nc):
+                ok = judge_edit(ctx, pre, case, start[k] / sc, after[k] / sc, list(range(start.shape[1])), None, topo.stereo_quads(), what=f"{what}, conformer {k}") and ok
+                if not ok:
+                    break
+                ach = min(N.rmsd(after[k][mm] - vec, Q) for mm in maps)
+                if abs(ach - retl[k]) > TOL * sc * max(1.0, N.extent(Q / sc)):
+                    ctx.violation(f"{pre}:returned-rmsd-differs-from-achieved", f"{what}, conformer {k}: returned {retl[k]:.9g}, achieved {ach:.9g}", case)
+                    ok = False
+                    break
+            ctx.outcome(("mag", "align", int(case["exp"]), ok))
+        else:
+            raise KeyError(what_k)
+    except Exception as ex:
+        ctx.violation(f"magnitude[{what_k}]:raised-{_exc(ex)}", f"{what_k} raised {_exc(ex)}: {ex}", case)
+        ok = False
+    finally:
+        np.seterr(**old)
+    if ok:
+        ctx.nontrivial(("mag", repr(sorted((k, repr(v)) for k, v in case.items()))))
+
+
+def _magcls(e):
+    return "1e-150..1e-100" if e < -100 else ("1e-14..1e-6" if e <= -6 else ("1e-3..1e3" if e <= 3 else ("1e6..1e8" if e <= 8 else "1e100..1e150")))
+
+
+def mag_cases(ctx, k):
+    G = None if k < 0 else _G(ctx, k)
+    dirs = [np.array(d, dtype=float) if G is None else np.array(d, dtype=float) @ G for d in N.LATTICE_DIRS]
+    out = []
+    for di, d in enumerate(dirs):
+        for e in MAG_EXP:
+            for ai, ang in enumerate(MAG_ANGLES):
+                if (di + ai) % 5 < 3 or e in (-14, -12, -8):
+                    out.append({"family": "mag", "kind": "axis", "axis": N.lst(d * 10.0**e), "angle": ang, "magcls": _magcls(e)})
+    # vector pairs: general, antiparallel and a near-antiparallel neighbour, every pair of magnitudes
+    pairs = []
+    for i in range(0, 26, 2):
+        pairs.append((dirs[i], dirs[(i + 7) % 26]))
+    pairs.append((dirs[3], -dirs[3]))
+    pairs.append((dirs[10], -dirs[10]))
+    u1, _ = N.any_orthogonal(dirs[5])
+    pairs.append((dirs[5], -dirs[5] + 1e-3 * np.linalg.norm(dirs[5]) * u1))
+    pairs.append((dirs[8], dirs[8]))
+    for pi_, (a, b) in enumerate(pairs):
+        for e1 in MAG_EXP:
+            for e2 in MAG_EXP:
+                if e1 == e2 == 0:
+                    continue
+                worst = e1 if abs(e1) >= abs(e2) else e2
+                out.append({"family": "mag", "kind": "vectors", "v1": N.lst(a * 10.0**e1), "v2": N.lst(b * 10.0**e2), "magcls": _magcls(worst)})
+    if k <= 0:
+        for name in ("chiral5", "twofrag", "pentane0", "dendrobine_mol2"):
+            topo = _topo("mol", name)
+            bonds = topo.bonds[:: max(1, len(topo.bonds) // 6)]
+            for bi, (a, b) in enumerate(bonds):
+                for ee in (-3, -6, -8, -10, -12, -14):
+                    out.append({"family": "mag", "kind": "transform-with-short-axis", "mol": name, "a": a, "b": b, "eps_exp": ee, "angle": MAG_ANGLES[(bi + ee) % 5]})
+            qs = dihedral_quads(topo, all_choices=False)
+            for qi, q in enumerate(qs[:: max(1, len(qs) // 6)]):
+                for e in (-14, -10, -6, -3, 3, 6, 8):
+                    out.append({"family": "mag", "kind": "rotate_dihedral-scaled", "mol": name, "quad": list(q), "target": TARGETS[2 + (qi + e) % 8], "exp": e})
+        chain = [0, 1, 5, 8, 11]
+        for e in (-10, -6, -3):
+            for pose in (1, 4):
+                out.append({"family": "mag", "kind": "align-scaled", "obj_kind": "mol", "obj": "chiral5", "maps": [[0, 1, 2, 3]], "exp": e, "pose": pose, "ref_pose": 3})
+                out.append({"family": "mag", "kind": "align-scaled", "obj_kind": "ens", "obj": "pentane_confs", "maps": [chain, chain[::-1]], "exp": e, "pose": pose, "ref_pose": 2})
+                out.append({"family": "mag", "kind": "align-scaled", "obj_kind": "ens", "obj": "syn3x3", "maps": [[0, 1, 2]], "exp": e, "pose": pose, "ref_pose": 5})
+    return out
+
+
+def part_mag(ctx, spec):
+    k, lo, hi = spec
+    for i, c in enumerate(mag_cases(ctx, k)[lo:hi]):
+        exec_mag(ctx, c)
+        if lo == 0 and i == 4 and k == -1:
+            ctx.sample(c)
+
+
+# =====================================================================================================
+# partner : an operation on one object must not move any object it was copied from / that was copied from it
+# =====================================================================================================
+PARTNER_ROUTES = (
+    "Molecule(molecule)",
+    "Structure(molecule)",
+    "Molecule(conformer)",
+    "ConformerEnsemble(ensemble)",
+    "ConformerEnsemble([molecules])",
+    "pickle[Molecule]",
+    "pickle[ConformerEnsemble]",
+    "deepcopy[Molecule]",
+    "deepcopy[ConformerEnsemble]",
+)
+
+
+def _snap(o):
+    return np.array(o.coords, dtype=float, copy=True)  # a plain numpy copy, never a library copy route
+
+
+def exec_partner(ctx, case):
+    import copy
+    import pickle
+
+    route = case["route"]
+    name = case["src"]
+    G = _G(ctx)
+    ctx.count(evaluations=1, states=1, traces=1)
+    try:
+        # ---- the source (built from raw data, itself not a copy of a cached object's arrays) -----------------
+        if route in ("Molecule(molecule)", "Structure(molecule)", "pickle[Molecule]", "deepcopy[Molecule]", "ConformerEnsemble([molecules])"):
+            raw = _raw_mol(name)
+            key = ("raw", name)
+            if key not in _CACHE:
+                _posed_mol(ctx, name)
+            src = ml.Molecule(raw)
+            src._coords = (_CACHE[key] @ G).copy()
+        else:
+            raw = _raw_ens(name)
+            key = ("eraw", name)
+            if key not in _CACHE:
+                _posed_ens(ctx, name)
+            src = ml.ConformerEnsemble(raw)
+            src._coords = (_CACHE[key] @ G).copy()
+
+        def make(j):
+            if route == "Molecule(molecule)":
+                return ml.Molecule(src)
+            if route == "Structure(molecule)":
+                return ml.Structure(src)
+            if route == "Molecule(conformer)":
+                return ml.Molecule(src[(j + int(case.get("conf", 0))) % src.n_conformers])
+            if route == "ConformerEnsemble(ensemble)":
+                return ml.ConformerEnsemble(src)
+            if route.startswith("pickle"):
+                return pickle.loads(pickle.dumps(src))
+            if route.startswith("deepcopy"):
+                return copy.deepcopy(src)
+            raise KeyError(route)
+
+        if route == "ConformerEnsemble([molecules])":
+            m2 = ml.Molecule(src)
+            m2._coords = (np.asarray(src.coords) @ N.pose_matrix(2)[0] + 0.3).copy()
+            objs = {"source-molecule-0": src, "source-molecule-1": m2}
+            objs["ensemble-a"] = ml.ConformerEnsemble([src, m2])
+            objs["ensemble-b"] = ml.ConformerEnsemble([src, m2])
+        else:
+            objs = {"source": src, "copy-a": make(0), "copy-b": make(1)}
+        ctx.count(transitions=len(objs))
+    except Exception as ex:
+        ctx.violation(f"copy-route[{route}]:raised-{_exc(ex)}", f"building partners by {route} from {name} raised {_exc(ex)}: {ex}", case)
+        return
+    snaps = {k: _snap(o) for k, o in objs.items()}
+    lat = N.lattice_vectors(G)
+    ok = True
+    order = list(objs)
+    rot = int(case.get("start", 0))
+    order = order[rot % len(order) :] + order[: rot % len(order)]
+    for step, who in enumerate(order):
+        o = objs[who]
+        t = step + rot + int(case.get("k", 0))
+        op = case["ops"][step % len(case["ops"])]
+        before = snaps[who]
+        v = lat[(7 * t + 3) % 78]
+        R = N.rot_axis_angle(lat[(5 * t + 1) % 26], ANGLES[3 + t % 8])
+        is_ens = before.ndim == 3
+        try:
+            if op == "translate":
+                o.translate(v.copy())
+                expected = before + v
+            elif op == "rotate":
+                (o.rotate if is_ens else o.transform)(R.copy())
+                expected = before @ R
+            elif op == "center":
+                if is_ens:
+                    o.center_at_atom(o.atoms[0])
+                    expected = before - before[:, 0:1, :]
+                else:
+                    o.translate(-o.get_atom_coord(0))
+                    expected = before - before[0]
+            elif op == "substructure":
+                if is_ens:
+                    o[0].substructure([0]).translate(v.copy())
+                    expected = before.copy()
+                    expected[0, 0] += v
+                else:
+                    o.substructure([0]).translate(v.copy())
+                    expected = before.copy()
+                    expected[0] += v
+            elif op == "inplace":
+                o.coords[..., 0] += 0.5
+                expected = before.copy()
+                expected[..., 0] += 0.5
+            else:
+                raise KeyError(op)
+            ctx.count(transitions=1)
+        except Exception as ex:
+            ctx.violation(f"partner[{route}]:{op}-raised-{_exc(ex)}", f"{op} on {who} ({route} of {name}) raised {_exc(ex)}: {ex}", case)
+            return
+        now = _snap(o)
+        if now.shape != expected.shape or float(np.max(np.abs(now - expected))) > TOL * N.mag(before, expected):
+            ctx.violation(f"partner[{route}]:not-the-documented-effect", f"{op} on {who} ({route} of {name}), step {step}: the object itself does not show the documented effect relative to its state before", case)
+            ok = False
+            break
+        snaps[who] = now
+        for other, oo in objs.items():
+            if other == who:
+                continue
+            cur = _snap(oo)
+            if cur.shape != snaps[other].shape or cur.tobytes() != snaps[other].tobytes():
+                ctx.violation(
+                    f"operation-on-one-object-moved-another[{route}]",
+                    f"{op} on {who} changed the coordinates of {other} (objects related by {route} of {name}; max change {float(np.max(np.abs(cur - snaps[other]))) if cur.shape == snaps[other].shape else float('nan'):.3g})",
+                    case,
+                )
+                ok = False
+                break
+        if not ok:
+            break
+    ctx.outcome(("partner", route, tuple(case["ops"]), ok))
+    if ok:
+        ctx.nontrivial(("partner", route, name, tuple(case["ops"]), case.get("start", 0), case.get("k", 0)))
+
+
+def partner_cases(ctx):
+    out = []
+    opsets = [["translate", "rotate", "center"], ["rotate", "substructure", "translate"], ["inplace", "rotate", "translate"], ["center", "translate", "rotate"]]
+    for route in PARTNER_ROUTES:
+        ens_src = route in ("Molecule(conformer)", "ConformerEnsemble(ensemble)", "pickle[ConformerEnsemble]", "deepcopy[ConformerEnsemble]")
+        srcs = ["pentane_confs", "chiral5x3", "syn3x3", "syn1x1", "syn4x4"] if ens_src else ["chiral5", "twofrag", "pentane0", "tri3", "mono1"]
+        for si, name in enumerate(srcs):
+            for oi, ops in enumerate(opsets):
+                for start in range(4 if route == "ConformerEnsemble([molecules])" else 3):
+                    out.append({"family": "partner", "route": route, "src": name, "ops": ops, "start": start, "k": si + oi, "conf": oi})
+    return out
+
+
+def part_partner(ctx, spec):
+    lo, hi = spec
+    for i, c in enumerate(partner_cases(ctx)[lo:hi]):
+        exec_partner(ctx, c)
+        if lo == 0 and i == 1:
+            ctx.sample(c)
+
+
+# =====================================================================================================
+EXEC = {"rv": exec_rv, "ra": exec_ra, "mol": exec_mol, "dih": exec_dih, "ens": exec_ens, "aln": exec_aln, "hist": exec_hist, "histens": exec_histens, "arg": exec_arg, "own": exec_own, "mag": exec_mag, "partner": exec_partner}
+PARTS = {"rv_pairs": part_rv_pairs, "rv_anti": part_rv_anti, "ra": part_ra, "mol": part_mol, "dih": part_dih, "ens": part_ens, "aln": part_aln, "hist": part_hist, "histens": part_histens, "arg": part_arg, "own": part_own, "ens_shapes": part_ens_shapes, "mag": part_mag, "partner": part_partner}
 
 
 def _run_part(ctx, part):
@@ -1964,7 +2335,13 @@ def run(ctx):
         "view (and a Substructure of it) kept across 7 ensemble edits x 4 edits through the view; every ensemble-level operation (translate 1-D/2-D, "
         "rotate matrix/stack, center_at_atom for every atom, center_at_core, Conformer translate/transform, align_to_ref_coords) on ensembles whose "
         "(n_conformers, n_atoms) is (1,1),(1,3),(3,1),(3,3),(2,3),(3,2),(4,4),(5,5) and (17,17) pentane - the coincidences on which a "
-        "shape-dispatched argument could be misread - plus 1-atom and 3-atom molecules in the molecule families; every function of the property that takes "
+        "shape-dispatched argument could be misread - plus 1-atom and 3-atom molecules in the molecule families; a magnitude dimension: every lattice direction scaled by 10^k, "
+        f"k in {list(MAG_EXP)}, as the axis of rotation_matrix_from_axis (proper rotation, axis fixed, trace = 1+2cos to 1e-12) and in every "
+        "pair of magnitudes as v1, v2 of rotation_matrix_from_vectors; transform with the matrix about the cross product of two directions "
+        "1e-3..1e-14 apart taken from the molecule; rotate_dihedral and alignment on molecules scaled by 1e-14..1e8 (judged in units of the "
+        "scale); partner liveness: objects related by 9 copy routes (copy constructors, Molecule(conformer), ensemble from molecules, pickle, "
+        "deepcopy) - after every operation on one of them every other one is compared bit for bit with a plain numpy snapshot; "
+        "every function of the property that takes "
         "array arguments (both rotation constructors, translate, transform, coords=, ensemble translate/rotate/coords=/center_at_core/"
         "align_to_ref_coords) called with each argument kind of {float64, strided float64 view, read-only float64, float32, int64, list, "
         "tuple}: arguments bit-identical afterwards and the documented effect; the same functions fed with VIEWS of the object's own "
@@ -1984,6 +2361,8 @@ def run(ctx):
         "alignment: func is a plain (un-centred) Kabsch in the P @ R ~ Q convention of scripts/align.py returning the true RMSD; conformers for which two index mappings fit equally well (gap < 1e-6) are excluded from the pose-independence comparison only",
         "kept-view histories: the parent edit between creating and using a view is harness set-up through the public API (del_atom / add_atom with an explicit charge); whether that edit itself is consistent is C05's subject - the oracle compares the state after the view was used with the state right before, atom by atom",
         "argument kinds: a float32 argument is judged against its own (rounded) value with tolerance 1e-5/1e-6; float32 vectors within 1+cos < 1e-3 of antiparallel are judged for argument integrity only (the documented switch tol=1e-8 is below float32 resolution; counted in notes); center_at_core takes python-int lists/tuples as documented",
+        "magnitudes 1e-300 / 1e300 are excluded: numpy.linalg.norm squares its argument, so HEAD returns NaN below ~1e-162 (underflow of the norm), loses accuracy at 1e-160 (subnormal squares) and returns the identity above ~1e154 (overflow: norm = inf); 1e-150 and 1e150 are the extreme magnitudes enumerated (measured on HEAD: exact to 1e-16)",
+        "copy.copy (shallow copy) is not a copy route here: sharing the arrays is what a shallow copy means",
         "rotate_dihedral is exercised on acyclic bonds only; dihedrals with collinear triples do not occur in the test molecules",
     ]
     ctx.bound.update(
@@ -2021,6 +2400,12 @@ def run(ctx):
         for gk in [0] + ([1, 2] if thorough else []):
             parts.append(("ens", (name, gk)))
         parts.append(("histens", name))
+    for k in ks:
+        nm = len(mag_cases(ctx, k))
+        for lo, hi in _chunks(nm, 4):
+            parts.append(("mag", (k, lo, hi)))
+    for lo, hi in _chunks(len(partner_cases(ctx)), 4):
+        parts.append(("partner", (lo, hi)))
     for name in SHAPE_ENS:
         parts.append(("ens_shapes", name))
         parts.append(("histens", name))
